@@ -60,6 +60,11 @@ def elem_bbox(e):
     return (min(xs), min(ys), max(xs), max(ys))
 
 
+# float32 coordinates just above 2^23 (all integers are representable) with boxes of the doubled grid: their half-integer corners are NOT
+# representable in float32, so a comparison that narrows the box corner to the coordinate type moves it across an element
+F32EDGE = geom.Affine(0.5, 2.0 ** 23 - 2, 0.5, 2.0 ** 23 - 2, name="f32edge")      # model vertices are even, box corners any integers
+
+
 def replay_family(chk: Check, fam, data, tier):
     boxes = data["boxes"]
     cases = data["cases"]
@@ -95,8 +100,8 @@ def replay_family(chk: Check, fam, data, tier):
                     "expect": int(E[1 if n > 1 else 0, len(boxes) // 2])})
         inds = np.array([chk.rng.randrange(n) for _ in range(max(1, n // 2))] + list(range(n - 1, -1, -3)))
         special = any(geom.has_special(e) for e in elems)
-        for aff in geom.IMAGES:
-            for subtype in geom.SUBTYPES:
+        for aff in geom.IMAGES + [F32EDGE]:
+            for subtype in (geom.SUBTYPES if aff is not F32EDGE else ["float32"]):
                 if np.dtype(subtype).kind == "i" and (special or not aff.integral()):
                     els = [e for e in elems if not geom.has_special(e)] if aff.integral() else None
                     if els is None:
@@ -157,8 +162,8 @@ def replay_family(chk: Check, fam, data, tier):
                             if list(got_d.index) != list(ser.index) or not np.array_equal(got_d.values, got_s.values):
                                 report(chk, kind, els, aff, subtype, orders[0], B, 0, "DaskGeoSeries (3 partitions)", None, None)
                 # scalar form: every element against a rotating sample of boxes (all boxes in thorough tier)
-                if subtype in ("float64", "int32") or tier == "thorough":
-                    step = 1 if tier == "thorough" else 9
+                if subtype in ("float64", "int32") or tier == "thorough" or aff is F32EDGE:
+                    step = 1 if (tier == "thorough" or (aff is F32EDGE and kind == "point")) else 9
                     for i in range(len(els)):
                         s = arr[i]
                         if s is None:
